@@ -37,6 +37,47 @@ def product_cases(rng):
     return rng.sample(out, 24)
 
 
+def router_half(res, projects, obs):
+    """Documented = enforced needs the router side too: the routes files of accepted projects must pass the
+    translation obligation router_ok (gate literal = effective alternatives), see C04_documented_equals_enforced."""
+    import routercheck as R
+    import project as P
+    from common import run_coq_file, parse_nat_list
+    accepted = [p for k, p in enumerate(projects) if obs[k]["3.0.0"]["exit"] == 0 and
+                len(set(c["name"] for c in p["controllers"])) == len(p["controllers"])][:6]
+    if not accepted:
+        return
+    moddir, results = R.generate_routes("C04_routes", accepted)
+    rows, meta = [], []
+    for k, p in enumerate(accepted):
+        for e in R.ENGINES:
+            r = results[k][e]
+            if r["exit"] != 0 or not r["hir"] or r["hir"]["parse_error"]:
+                continue
+            rows.append("(%d, %s,\n   %s)" % (len(meta), P.coq_project(p), R.coq_registrations(r["hir"])))
+            meta.append((k, e))
+    body = ("From Gleece Require Import Base.Bytes Model.Project Model.Spec Model.Security Model.RouterGate.\n"
+            "From Coq Require Import String.\n"
+            "Definition cases : list (nat * project * list registration) := [\n" + ";\n".join(rows) + "].\n"
+            "Definition failing := Eval vm_compute in map (fun c => fst (fst c)) "
+            "(filter (fun c => negb (router_ok (snd (fst c)) (snd c))) cases).\nPrint failing.\n")
+    out = run_coq_file("C04", "router_obligations", body, timeout=900)
+    failing = parse_nat_list(out, "failing")
+    for i in failing[:2]:
+        k, e = meta[i]
+        res.violation({"kind": "translation-obligation", "obligation": "RouterGate.router_ok (engine %s)" % e,
+                       "input": accepted[k], "engine": e,
+                       "gates": [{"op": r["op_id"], "alts": r["alts"], "gate_ok": r["gate_ok"]} for r in results[k][e]["hir"]["registrations"]],
+                       "note": "the security the generated router enforces differs from the effective (documented) security"},
+                      no_input=True)
+    res.coverage["router_files_translated"] = len(rows)
+    res.coverage["obligations"] = res.coverage.get("obligations", 0) + len(rows)
+    res.coverage["discharged"] = res.coverage.get("discharged", 0) + len(rows) - len(failing)
+    import shutil, os
+    from common import WORK
+    shutil.rmtree(os.path.join(WORK, "C04_routes"), ignore_errors=True)
+
+
 if __name__ == "__main__":
     res = speccheck.run(
         "C04", SPEC, {"security": True, "params": False, "multipkg": True, "undeclared": True, "enforce": True}, 24, 300,
@@ -46,5 +87,5 @@ if __name__ == "__main__":
              "with a non-empty security list emitted, or the project was rejected",
         assumptions=["go/packages discovery and kin-openapi/libopenapi rendering are exercised, not modelled"],
         nontrivial=lambda p, ops: ops is None or any(o["security"] for o in ops),
-        extra_cases=product_cases)
+        extra_cases=product_cases, post=router_half)
     sys.exit(res.finish())
